@@ -22,6 +22,32 @@ theorem fact_translator_checks :
     Wiring.translatorPoisonChecks.map (·.1) = ["Decrypt", "DecryptSearchable", "DecryptSymSearchable", "DecryptSym"] ∧
     ∀ p ∈ Wiring.translatorPoisonChecks, 1 ≤ p.2 := by decide
 
+/-- **What each poison check of AcraTranslator scans.** Every `service.poisonDetector.OnColumn` call of the four
+decrypt operations, with the variable it receives and what that variable HOLDS on the path to the call (data flow
+regenerated from `service.go` and `hmac.ExtractHashAndData`): after a failed reveal the detector gets the very buffer
+`DecryptWithHandler` had received; when no hash can be cut off (`hashPart == nil`) it gets `dataToDecrypt` – NOT
+`containerData`, which is `nil` on that path (seeded change C15-4). -/
+theorem fact_translator_sites :
+    Wiring.translatorPoisonSites =
+      [("Decrypt", "decrypt-failed", "acraStruct", "input", "input"),
+       ("DecryptSearchable", "no-hash", "dataToDecrypt", "hash++input", "-"),
+       ("DecryptSearchable", "decrypt-failed", "containerData", "rest-after-hash", "rest-after-hash"),
+       ("DecryptSymSearchable", "no-hash", "dataToDecrypt", "hash++input", "-"),
+       ("DecryptSymSearchable", "decrypt-failed", "containerData", "rest-after-hash", "rest-after-hash"),
+       ("DecryptSym", "decrypt-failed", "acraBlock", "input", "input")] ∧
+    Wiring.extractHashAndDataNilTogether = true := by decide
+
+/-- the same read the way the model reads it: on every failure path the detector scans data of the caller – the
+whole `dataToDecrypt` when no hash was found, the rest behind the hash when the reveal failed -/
+theorem fact_searchable_scans (k : Kind) (data d rest : Bytes) :
+    Translator.siteBuffer (Translator.siteHolds (Translator.searchableOp k) "no-hash") data d rest = d ∧
+    Translator.siteBuffer (Translator.siteHolds (Translator.searchableOp k) "decrypt-failed") data d rest = rest := by
+  have h1 : Translator.siteHolds "DecryptSearchable" "no-hash" = "hash++input" := by decide
+  have h2 : Translator.siteHolds "DecryptSymSearchable" "no-hash" = "hash++input" := by decide
+  have h3 : Translator.siteHolds "DecryptSearchable" "decrypt-failed" = "rest-after-hash" := by decide
+  have h4 : Translator.siteHolds "DecryptSymSearchable" "decrypt-failed" = "rest-after-hash" := by decide
+  cases k <;> simp [Translator.searchableOp, Translator.siteBuffer, h1, h2, h3, h4]
+
 /-! ## 1. the traced scan computes the same bytes as the plain one
 
 The alarm count is the second component of `scanT` / `onColumnT` / `onColumnCompatT` / `proxyOnColumn` /
@@ -224,7 +250,7 @@ theorem poison_detected_translator_searchable (c : CryptoOps) (st : Translator.S
   simp only
   rcases hd with ⟨hx, hdd⟩ | ⟨hh, hx, hfail⟩
   · rw [hx]
-    simp only
+    simp only [(fact_searchable_scans k' data (Translator.dataToDecrypt data hash) []).1]
     refine ⟨trivial, ?_⟩
     obtain ⟨e, rfl, he, hlen, hproc⟩ := createPoison_facts c k pkW st.poison.pk dataLen rnd P h hP
     unfold Translator.poisonScan
@@ -233,7 +259,8 @@ theorem poison_detected_translator_searchable (c : CryptoOps) (st : Translator.S
     exact translator_poison c st.poison k e pre suf hcb he hlen (isPoison_eq_true.2 ⟨_, hproc suf⟩)
       (by rw [List.append_assoc]; exact c01_skip_of_no_tag_byte _ pre (serBytes e k.id ++ suf) hpre)
   · rw [hx]
-    simp only
+    simp only [(fact_searchable_scans k' data (Translator.dataToDecrypt data hash) (pre ++ P ++ suf)).2,
+      translatorDecryptScan_self]
     obtain ⟨h1, h2⟩ := poison_detected_translator c st.poison (st.keys id) pkW k k' dataLen rnd P pre suf hcb hP h hpre hfail
     cases ht : translatorDecrypt c st.poison (st.keys id) k' (pre ++ P ++ suf) with
     | mk o a =>
